@@ -745,6 +745,18 @@ pub fn hook_format_choice_option(o: &crate::intermediate::types::ChoiceOption, p
     let name = g.to_rust_enum_identifier(&o.name);
     g.format_choice_option(name, o, parent, ext).map(|d| d.to_string()).map_err(|e| format!("{e:?}"))
 }
+/// accessors for the native replay of format_sequence_or_set_members / format_choice_options (unit GEN_members): struct / enum body,
+/// (constructor argument name, type) pairs, hoisted items — token text as proc_macro2 prints it
+#[cfg(not(kani))]
+pub fn hook_format_sequence_or_set_members(s: &crate::intermediate::types::SequenceOrSet, parent: &str) -> Result<(String, Vec<String>, Vec<String>), String> {
+    crate::generator::rasn::Rasn::default().format_sequence_or_set_members(s, parent)
+        .map(|f| (f.struct_body.to_string(), f.name_types.iter().map(|nt| format!("{nt:?}")).collect(), f.nested_anonymous_types.iter().map(|t| t.to_string()).collect())).map_err(|e| format!("{e:?}"))
+}
+#[cfg(not(kani))]
+pub fn hook_format_choice_options(c: &crate::intermediate::types::Choice, parent: &str) -> Result<(String, Vec<String>), String> {
+    crate::generator::rasn::Rasn::default().format_choice_options(c, parent)
+        .map(|f| (f.enum_body.to_string(), f.nested_anonymous_types.iter().map(|t| t.to_string()).collect())).map_err(|e| format!("{e:?}"))
+}
 #[cfg(not(kani))]
 pub fn hook_inner_name(name: &str, parent: &str) -> String { crate::generator::rasn::Rasn::default().inner_name(name, parent).to_string() }
 #[cfg(not(kani))]
